@@ -265,6 +265,10 @@ def job_overlap(j):
             out.append(('keepalive-off:closed-after-request', f"{o['open_end']} open after the overlapping callers completed"))
         if o['leaked'] > 0:
             out.append(('no-socket-leak', f"{o['leaked']} socket(s) open without an open transport after the overlapping callers completed"))
+        for i, rr in sorted((o.get('second_round') or {}).items(), key=str):
+            if rr[0] != 'ok' if isinstance(rr, tuple) else True:
+                out.append(('next-request-works', f'overlapping callers again in the next event loop: caller {i} -> {rr}'))
+                break
         if o['open_closed'] != 0 or o['leaked_closed'] > 0:
             out.append(('closed-after-close()', f"{o['open_closed']} transports / {o['leaked_closed']} stray sockets open after close()"))
         return out
@@ -293,6 +297,7 @@ def run(tier, seed, rep):
     for tr in ('udp', 'tcp'):
         for ka in (False, True):
             ov_jobs.append((dict(transport=tr, ka=ka, T=1, R=1, N=2), 'product', None))
+            ov_jobs.append((dict(transport=tr, ka=ka, T=1, R=1, N=2, second_round=True), 'deviations', 2))
             ov_jobs.append((dict(transport=tr, ka=ka, T=1, R=0, N=3), 'product' if tier == 'thorough' else 'deviations', None if tier == 'thorough' else 3))
     ov = Stats()
     for st in pmap(job_overlap, ov_jobs):
